@@ -1018,7 +1018,7 @@ lpc_gate_harness!(c18_lpc_verify_gate_lengths, false, (1, 2, 1), (2, 1, 1), (1, 
 /// after `new`) matches, the header verifies; the quick units check these conjuncts, the thorough
 /// unit calls `Frame::verify()` itself (504 s even for an empty frame: its body pulls in the whole
 /// frame writer and CRC-16).
-fn frame_new<const K: usize>(call_verify: bool) -> bool {
+fn any_frame_header() -> (FrameHeader, usize, usize) {
     let n: u8 = kani::any();
     kani::assume(1 <= n && n <= 8);
     let which: u8 = kani::any();
@@ -1038,21 +1038,32 @@ fn frame_new<const K: usize>(call_verify: bool) -> bool {
     );
     header.set_frame_offset(FrameOffset::Frame(kani::any()));
     let channels = header.channel_assignment().channels();
-    let subs: [SubFrame; K] = std::array::from_fn(|_| {
-        let dc: i16 = kani::any();
-        Constant::from_parts(x as usize + 1, dc as i32, 16).into()
-    });
-    match Frame::new(header, subs.into_iter()) {
+    (header, channels, x as usize + 1)
+}
+
+fn any_constant_subframe(bs: usize) -> SubFrame {
+    let dc: i16 = kani::any();
+    Constant::from_parts(bs, dc as i32, 16).into()
+}
+
+fn frame_new_check(
+    r: Result<Frame, VerifyError>,
+    channels: usize,
+    bs: usize,
+    k: usize,
+    call_verify: bool,
+) -> bool {
+    match r {
         Ok(f) => {
-            assert!(channels == K);
-            assert!(f.subframe_count() == K && f.block_size() == x as usize + 1);
+            assert!(channels == k);
+            assert!(f.subframe_count() == k && f.block_size() == bs);
             if call_verify {
                 assert!(f.verify().is_ok());
             } else {
                 assert!(f.precomputed_bitstream().is_none());
                 assert!(f.header().verify().is_ok());
                 let mut ch = 0;
-                while ch < K {
+                while ch < k {
                     // (matching the variant keeps the other variants' verify out of the model)
                     match f.subframe(ch) {
                         Some(SubFrame::Constant(c)) => assert!(c.verify().is_ok()),
@@ -1065,37 +1076,46 @@ fn frame_new<const K: usize>(call_verify: bool) -> bool {
             std::mem::forget(f);
             true
         }
-        Err(_) => {
-            assert!(channels != K);
+        Err(e) => {
+            assert!(channels != k);
+            std::mem::forget(e);
             false
         }
     }
 }
 
-macro_rules! frame_new_harness {
-    ($name:ident, $k:expr, $call_verify:expr, $reachable:expr) => {
-        #[kani::proof]
-        #[kani::unwind(8)]
-        #[kani::stub(std::fmt::format, stub_format)]
-        #[kani::stub(VerifyError::within, stub_within)]
-        fn $name() {
-            let ok = frame_new::<$k>($call_verify);
-            if $reachable {
-                kani::cover!(ok);
-            }
-            kani::cover!(!ok);
-        }
-    };
+//@ unit props=C18 tier=quick kind=bounded timeout=600 funcs="Frame::new; Frame::from_parts; FrameHeader::verify; Constant::verify" bound="0, 1 and 2 constant sub-frames; channel assignment (every variant, 1..=8 channels), block size, frame number, offsets symbolic" note="whole-frame serialisation (CRC-16 over MemSink<u64>) is C08 / bitrepr units; Frame::new / Frame::verify do NOT check that the sub-frames' block size and width agree with the header (see report)"
+#[kani::proof]
+#[kani::unwind(8)]
+#[kani::stub(std::fmt::format, stub_format)]
+#[kani::stub(VerifyError::within, stub_within)]
+fn c18_frame_new() {
+    let (header, channels, bs) = any_frame_header();
+    let ok = frame_new_check(Frame::new(header, std::iter::empty()), channels, bs, 0, false);
+    assert!(!ok);
+    let (header, channels, bs) = any_frame_header();
+    let it = std::iter::once(any_constant_subframe(bs));
+    let ok = frame_new_check(Frame::new(header, it), channels, bs, 1, false);
+    kani::cover!(ok);
+    kani::cover!(!ok);
+    let (header, channels, bs) = any_frame_header();
+    let it = std::iter::once(any_constant_subframe(bs)).chain(std::iter::once(any_constant_subframe(bs)));
+    let ok = frame_new_check(Frame::new(header, it), channels, bs, 2, false);
+    kani::cover!(ok);
+    kani::cover!(!ok);
 }
 
-//@ unit name=c18_frame_new_k0 props=C18 tier=quick kind=bounded timeout=600 funcs="Frame::new; Frame::from_parts; FrameHeader::verify" bound="no sub-frame; channel assignment (every variant, 1..=8 channels), block size, frame number symbolic"
-//@ unit name=c18_frame_new_k1 props=C18 tier=quick kind=bounded timeout=600 funcs="Frame::new; Frame::from_parts; FrameHeader::verify; SubFrame::verify" bound="1 constant sub-frame; channel assignment, block size, frame number, offset symbolic"
-//@ unit name=c18_frame_new_k2 props=C18 tier=quick kind=bounded timeout=600 funcs="Frame::new; Frame::from_parts; FrameHeader::verify; SubFrame::verify" bound="2 constant sub-frames; channel assignment, block size, frame number, offsets symbolic" note="whole-frame serialisation (CRC-16 over MemSink<u64>) is C08 / bitrepr units; Frame::new / Frame::verify do NOT check that the sub-frames' block size and width agree with the header (see report)"
-//@ unit name=c18_frame_new_k1_verify props=C18 tier=thorough kind=bounded timeout=2400 funcs="Frame::new; Frame::verify" bound="1 constant sub-frame; channel assignment, block size, frame number, offset symbolic; calls Frame::verify() itself"
-frame_new_harness!(c18_frame_new_k0, 0, false, false);
-frame_new_harness!(c18_frame_new_k1, 1, false, true);
-frame_new_harness!(c18_frame_new_k2, 2, false, true);
-frame_new_harness!(c18_frame_new_k1_verify, 1, true, true);
+//@ unit props=C18 tier=thorough kind=bounded timeout=2400 funcs="Frame::new; Frame::verify" bound="1 constant sub-frame; channel assignment, block size, frame number, offset symbolic; calls Frame::verify() itself"
+#[kani::proof]
+#[kani::unwind(8)]
+#[kani::stub(std::fmt::format, stub_format)]
+#[kani::stub(VerifyError::within, stub_within)]
+fn c18_frame_verify_after_new() {
+    let (header, channels, bs) = any_frame_header();
+    let it = std::iter::once(any_constant_subframe(bs));
+    let ok = frame_new_check(Frame::new(header, it), channels, bs, 1, true);
+    kani::cover!(ok);
+}
 
 fn new_unknown<const N: usize>() {
     let tag: u8 = kani::any();
@@ -1200,4 +1220,5 @@ fn c18_stream_info_setters() {
     kani::cover!(!r1 && a > b);
     kani::cover!(!r2);
 }
+
 
